@@ -140,7 +140,9 @@ class SocketSpawn(SpawnBase):
                 if s == b'':
                     self.flag_eof = True
                     raise EOF("Socket closed")
-                return s
+            s = self._decoder.decode(s, final=False)
+            self._log(s, 'read')
+            return s
         except (socket.timeout, BlockingIOError):
             # BlockingIOError: timeout=0 puts the socket in non-blocking mode
             raise TIMEOUT("Timeout exceeded.")
